@@ -160,6 +160,13 @@ def seq_equal(a, b):
         cs = []
         for k in range(la):
             cs.extend([z3.Select(x, _off(a.base, k)) == z3.Select(y, _off(b.base, k)) for x, y in zip(a.arrs, b.arrs)])
+        if cs and len(cs) <= 64:
+            # two literals (e.g. bytes constants used as keys): decide now
+            r = z3.simplify(z3.And(*cs))
+            if z3.is_true(r):
+                return True
+            if z3.is_false(r):
+                return False
         return z3.And(*cs) if cs else True
     n = la if isinstance(la, int) else lb
     if isinstance(n, int) and n <= 64:
